@@ -35,6 +35,49 @@ theorem distr_roundtrip_after_block (e : Env) (henv : EnvOk e) (hmod : e.modAddr
   have hso := storedOk_of_inv e r.world.states hinv'.books.states hb'
   exact ⟨r, hr, distr_states_roundtrip _ hso, fun s hs => distr_export_validates s (hso s hs), hb', hinv'⟩
 
+/-- **a genesis accepted by `GenesisState.Validate` starts the distributor with the burn-state
+    normalisation in place**: after `InitGenesis` every burn-flagged state carries the empty account
+    (D4 repair), and — since the D36 repair — no other state is stored under the burn state's key -/
+theorem genesis_valid_init (e : Env) (subs : List SubD) (states : List DState) (hv : genesisValid e subs states = true) :
+    BurnAcc (initStates states) ∧ ∀ s ∈ initStates states, s.burn = false → stateKey s ≠ burnStateKey := by
+  unfold genesisValid at hv
+  simp only [Bool.and_eq_true] at hv
+  obtain ⟨⟨hall, _⟩, _⟩ := hv
+  have hmem : ∀ t ∈ initStates states, ∃ s ∈ states,
+      t = (if s.burn && s.account.isNone then { s with account := some { id := "", type := "" } } else s) := by
+    intro t ht
+    unfold initStates at ht
+    obtain ⟨s, hs, rfl⟩ := List.mem_map.mp (mem_storeStates _ t ht)
+    exact ⟨s, hs, rfl⟩
+  constructor
+  · intro t ht hb
+    obtain ⟨s, hs, rfl⟩ := hmem t ht
+    have hsv := List.all_eq_true.mp hall s hs
+    unfold stateValid at hsv
+    simp only [Bool.and_eq_true] at hsv
+    by_cases hsb : s.burn = true
+    · have hnone : s.account.isNone = true := by
+        have := hsv.1.1; rw [hsb] at this; simpa using this
+      simp only [hsb, hnone, Bool.and_self, if_true]
+      rfl
+    · have hsb' : s.burn = false := by simpa using hsb
+      simp only [hsb', Bool.false_and, Bool.false_eq_true, if_false] at hb
+  · intro t ht hb
+    obtain ⟨s, hs, rfl⟩ := hmem t ht
+    have hsv := List.all_eq_true.mp hall s hs
+    unfold stateValid at hsv
+    simp only [Bool.and_eq_true, Bool.or_eq_true, decide_eq_true_eq] at hsv
+    by_cases hsb : s.burn = true
+    · have hnone : s.account.isNone = true := by
+        have := hsv.1.1; rw [hsb] at this; simpa using this
+      simp only [hsb, hnone, Bool.and_self, if_true] at hb
+      cases hb
+    · have hsb' : s.burn = false := by simpa using hsb
+      simp only [hsb', Bool.false_and, Bool.false_eq_true, if_false]
+      rcases hsv.2 with h1 | h1
+      · rw [hsb'] at h1; cases h1
+      · exact h1
+
 /-- the empty distributor trivially has the property, so it holds along every history of blocks -/
 theorem burnAcc_nil : BurnAcc [] := fun _ h => by cases h
 
